@@ -172,13 +172,16 @@ Fixpoint blank_b (s : str) : bool :=
   end.
 
 (* validate/info.go DocumentProperty: names AddProperties / RemoveProperties refuse *)
-Definition reserved_key (k : str) : bool :=
-  smem k [asc "Keywords"; asc "Producer"; asc "CreationDate"; asc "ModDate"; asc "Trapped"].
+(* (the string constants are evaluated to code lists so that no Coq string is extracted) *)
+Definition reserved_keys : list str :=
+  Eval vm_compute in [asc "Keywords"; asc "Producer"; asc "CreationDate"; asc "ModDate"; asc "Trapped"].
+Definition reserved_key (k : str) : bool := smem k reserved_keys.
 
 (* validate/info.go validateDocInfoDictEntry: entries that have their own case and never
    reach handleProperties (stored by AddProperties, not listed by Properties) *)
-Definition std_key (k : str) : bool :=
-  smem k [asc "Title"; asc "Author"; asc "Subject"; asc "Creator"; asc "AAPL:Keywords"].
+Definition std_keys : list str :=
+  Eval vm_compute in [asc "Title"; asc "Author"; asc "Subject"; asc "Creator"; asc "AAPL:Keywords"].
+Definition std_key (k : str) : bool := smem k std_keys.
 
 Definition info := list (str * str).
 
@@ -218,13 +221,14 @@ Definition prem_valid (ks : list str) : bool :=
   forallb (fun k => negb (blank_b k) && negb (reserved_key k)) ks.
 
 (* ------------------------------------------------------- page layout / mode *)
-Definition pl_names : list str :=
+Definition pl_names : list str := Eval vm_compute in
   [asc "SinglePage"; asc "TwoColumnLeft"; asc "TwoColumnRight"; asc "TwoPageLeft"; asc "TwoPageRight"; asc "OneColumn"].
-Definition pm_names : list str :=
+Definition pm_names : list str := Eval vm_compute in
   [asc "UseNone"; asc "UseOutlines"; asc "UseThumbs"; asc "FullScreen"; asc "UseOC"; asc "UseAttachments"].
 
 (* PageLayout.String / PageMode.String *)
-Definition enum_name (tbl : list str) (v : N) : str := nth (N.to_nat v) tbl (asc "?").
+Definition qmark : str := Eval vm_compute in asc "?".
+Definition enum_name (tbl : list str) (v : N) : str := nth (N.to_nat v) tbl qmark.
 (* PageLayoutFor / PageModeFor: switch strings.ToLower(s) *)
 Fixpoint enum_for_aux (tbl : list str) (i : N) (s : str) : option N :=
   match tbl with
